@@ -280,6 +280,11 @@ def is_noop_stmt(n):
     """a statement without effect: `;`, `(void)0;`, `static_cast<void>(x);` of a literal / name"""
     if n is None or n.kind == 'NullStmt':
         return True
+    if n.kind == 'DeclStmt':
+        # a `const bool` that only names a test which the IR has put back into the condition
+        vds = [k for k in n.kids if k is not None]
+        if vds and all(k.kind == 'VarDecl' and (k.x or {}).get('cond_alias') for k in vds):
+            return True
     if n.kind in ('CStyleCastExpr', 'CXXStaticCastExpr', 'CXXFunctionalCastExpr') and 'void' in (n.type or ''):
         inner = n.kids[-1] if n.kids else None
         return inner is None or inner.kind in ('IntegerLiteral', 'DeclRefExpr', 'CXXBoolLiteralExpr')
